@@ -140,14 +140,29 @@ Definition prec_of_digits (D : Z) : Z := trunc (inject_Z D * LOG2_10 + 1).
 Definition digits_for (lg : Q) (precf prec_out : Z) : Z :=
   Z.min (Z.min (digit_count lg) (prec_digits precf)) (out_digit prec_out).
 
+(* GMP (stated specification, mpf/get_str.c): an mpf initialised with n bits holds
+   gmp_prec n = 64 * ((max 53 n + 127) / 64 - 1) bits (what mpf_get_prec returns), and mpf_get_str never
+   produces more than 2 + floor (log10 2 * that) digits however many are asked for.  mps_outfloat prints
+   from a copy t of the component with mpf_init2 (t, output_config->prec). *)
+Definition gmp_prec (bits : Z) : Z := 64 * ((Z.max 53 bits + 127) / 64 - 1).
+Definition gmp_digit_cap (bits : Z) : Z := 2 + trunc (LOG10_2 * inject_Z (gmp_prec bits)).
+
+(* number of significant digits mpf_out_str (outstr, 10, true_digit, t) shows at most *)
+Definition printed_digits (lg : Q) (precf prec_out : Z) : Z :=
+  Z.min (digits_for lg precf prec_out) (gmp_digit_cap prec_out).
+
 (* what mps_outfloat does for the formats compact / bare / verbose *)
 Inductive plan :=
 | PZeroExp (l : Z)      (* prints "0.e<l>"  with l = the truncated decimal logarithm of |x| (rdpe_get_dl) *)
-| PSig (d : Z).         (* mpf_out_str (.., 10, d, t) *)
+| PSig (d : Z).         (* mpf_out_str (.., 10, true_digit, t) shows the d-digit rounding *)
 
 (* lg = log10 (rad/|x|) as computed (1e-10 is used for x = 0: lg = -10), lgabs = log10 |x| as computed *)
 Definition outfloat_plan (lg lgabs : Q) (precf prec_out : Z) : plan :=
-  if digit_count lg <=? 0 then PZeroExp (trunc lgabs) else PSig (digits_for lg precf prec_out).
+  if digit_count lg <=? 0 then PZeroExp (trunc lgabs) else PSig (printed_digits lg precf prec_out).
+
+(* the exponent the "0.e<l>" branch should print (fixes/C17_outfloat_zero_branch_exponent.patch): GMP writes
+   0.ddd * 10^l, so a mantissa d.ddd >= 1 of rdpe_get_dl (logarithm >= 0) needs l + 1 *)
+Definition zero_exp_fixed (lgabs : Q) : Z := if Qle_bool 0 lgabs then trunc lgabs + 1 else trunc lgabs.
 
 (* ------------------------------------------------------------------ per-format layout *)
 Inductive fmt := Compact | Bare | Verbose | Full | Gnuplot | GnuplotFull.
@@ -190,3 +205,45 @@ Definition count_roots (zero_roots : nat) (outside_unit_disc : bool) (incls : li
   let cout := length (filter is_out incls) in
   let cun := length (filter (fun c => match c with IncUnknown => true | _ => false end) incls) in
   if outside_unit_disc then (cin, (cout + zero_roots)%nat, cun) else ((cin + zero_roots)%nat, cout, cun).
+
+(* ------------------------------------------------------------------ a printer (specification side of decimal_parse) *)
+Inductive dg := D0 | D1 | D2 | D3 | D4 | D5 | D6 | D7 | D8 | D9.
+Definition dg_val (d : dg) : Z :=
+  match d with D0 => 0 | D1 => 1 | D2 => 2 | D3 => 3 | D4 => 4 | D5 => 5 | D6 => 6 | D7 => 7 | D8 => 8 | D9 => 9 end.
+Definition dg_char (d : dg) : ascii :=
+  match d with D0 => "0" | D1 => "1" | D2 => "2" | D3 => "3" | D4 => "4" | D5 => "5" | D6 => "6" | D7 => "7"
+          | D8 => "8" | D9 => "9" end%char.
+Fixpoint put_digits (ds : list dg) (tail : string) : string :=
+  match ds with [] => tail | d :: r => String (dg_char d) (put_digits r tail) end.
+Definition val_from (acc : Z) (ds : list dg) : Z := fold_left (fun a d => a * 10 + dg_val d) ds acc.
+
+Inductive echar := Ee | EE | Ex.      (* GMP prints 'e', the DPE radius is printed with 'x' *)
+Definition echar_ascii (c : echar) : ascii := match c with Ee => "e" | EE => "E" | Ex => "x" end%char.
+Inductive esign := ENone | EPlus | EMinus.
+Definition put_esign (s : esign) (tail : string) : string :=
+  match s with ENone => tail | EPlus => String "+"%char tail | EMinus => String "-"%char tail end.
+
+(* [-] IP [ . FP ] [ (e|E|x) [+|-] ED ] *)
+Record rendering := { r_neg : bool; r_ip : list dg; r_fp : option (list dg); r_exp : option (echar * esign * list dg) }.
+
+Definition render (r : rendering) : string :=
+  let etail := match r_exp r with
+               | None => EmptyString
+               | Some (c, sg, eds) => String (echar_ascii c) (put_esign sg (put_digits eds EmptyString))
+               end in
+  let ftail := match r_fp r with None => etail | Some fp => String "."%char (put_digits fp etail) end in
+  let body := put_digits (r_ip r) ftail in
+  if r_neg r then String "-"%char body else body.
+
+Definition frac_digits (r : rendering) : list dg := match r_fp r with None => [] | Some fp => fp end.
+Definition exp_value (r : rendering) : Z :=
+  match r_exp r with
+  | None => 0
+  | Some (_, sg, eds) => match sg with EMinus => - val_from 0 eds | _ => val_from 0 eds end
+  end.
+(* what the text means: +-(IP FP read as one integer) * 10^(exponent - number of fraction digits) *)
+Definition rendering_value (r : rendering) : Q :=
+  let m := val_from 0 (r_ip r ++ frac_digits r) in
+  inject_Z (if r_neg r then - m else m) * p10 (exp_value r - Z.of_nat (length (frac_digits r))).
+Definition rendering_wf (r : rendering) : Prop :=
+  r_ip r ++ frac_digits r <> [] /\ match r_exp r with Some (_, _, eds) => eds <> [] | None => True end.
